@@ -816,3 +816,5 @@ silent("c03-benign-merge-transforms-recursive", ["C03", "C08"], "flowjax/distrib
 fire("c03-merge-transforms-outermost-first", ["C03", "C08"], "flowjax/distributions.py", _MT_OLD,
      "        inner = self.base_dist.merge_transforms()\n"
      "        return Transformed(inner.base_dist, Chain([self.bijection, inner.bijection]).merge_chains())\n", "merge")
+fire("c08-chain-getitem-slice-raises", ["C08", "C03"], B + "chain.py",
+     "        if isinstance(i, slice):\n", "        if not isinstance(i, slice):\n", "flatten")
